@@ -52,4 +52,32 @@ for P in args:
     json.dump(out, open(os.path.join(V, "coverage", P + ".json"), "w"), indent=1)
     open(os.path.join(V, "coverage", P + ".txt"), "w").write("\n".join(txt) + "\n")
     print(P, "exit", r.returncode, " ".join("%s:%s/%s" % (os.path.basename(f), (v or {}).get("covered"), (v or {}).get("statements")) for f, v in out["files"].items() if not f.endswith("_gen.go"))[:400], flush=True)
+    if os.path.exists(prof):
+        shutil.copy(prof, os.path.join(V, ".build", "cover", P + ".profile"))
     shutil.rmtree(cd, ignore_errors=True)
+
+# union over every profile kept so far: statements of the library no check's Go side executes
+allb = collections.defaultdict(dict)
+import glob
+profs = sorted(glob.glob(os.path.join(V, ".build", "cover", "C*.profile")))
+for pf in profs:
+    for l in open(pf):
+        m = re.match(r"github.com/xelaj/mtproto/(\S+?):(\d+)\.(\d+),(\d+)\.(\d+) (\d+) (\d+)", l)
+        if not m or m.group(1).startswith("verifharness/"): continue
+        k = tuple(int(x) for x in m.group(2, 3, 4, 5))
+        b = allb[m.group(1)].setdefault(k, [int(m.group(6)), 0]); b[1] += int(m.group(7))
+if len(profs) >= 2:
+    txt = ["# statements of the library that the Go side of NO check executes (union of %d checks: %s)" % (len(profs), " ".join(os.path.basename(x)[:3] for x in profs)), ""]
+    for f in sorted(allb):
+        bs = allb[f]; tot = sum(b[0] for b in bs.values()); cov = sum(b[0] for b in bs.values() if b[1] > 0)
+        unc = sorted(k for k, b in bs.items() if b[1] == 0)
+        if f.endswith("_gen.go") or "verif_" in f:
+            txt.append("%-55s %5d / %5d statements" % (f, cov, tot)); continue
+        txt.append("%-55s %5d / %5d statements  (%d uncovered blocks)" % (f, cov, tot, len(unc)))
+        try: src = open(os.path.join(REPO, f)).read().splitlines()
+        except OSError: src = []
+        for (l0, c0, l1, c1) in unc:
+            first = src[l0 - 1].strip() if l0 - 1 < len(src) else ""
+            nxt = src[l0].strip() if l0 < len(src) and l1 > l0 else ""
+            txt.append("      %4d-%-4d %s %s" % (l0, l1, first[:90], ("| " + nxt[:70]) if nxt else ""))
+    open(os.path.join(V, "coverage", "UNION.txt"), "w").write("\n".join(txt) + "\n")
